@@ -846,7 +846,9 @@ func (e *Effects) compatible(fn *ssa.Function, root, ct string) bool {
 }
 
 // ownerOf names the struct field or variable a map/slice value was loaded from.
-func ownerOf(v ssa.Value) string {
+func ownerOf(v ssa.Value) string { return ownerOfSeen(v, map[ssa.Value]bool{}) }
+
+func ownerOfSeen(v ssa.Value, seen map[ssa.Value]bool) string {
 	switch x := v.(type) {
 	case *ssa.UnOp:
 		if x.Op == token.MUL {
@@ -860,9 +862,15 @@ func ownerOf(v ssa.Value) string {
 		st := x.X.Type().Underlying().(*types.Struct)
 		return typeStr(x.X.Type()) + "." + st.Field(x.Field).Name()
 	case *ssa.Phi:
+		if seen[x] {
+			return "" // a value carried round a loop: named by its other edges
+		}
+		seen[x] = true
 		names := strset{}
 		for _, e := range x.Edges {
-			names.add(ownerOf(e))
+			if n := ownerOfSeen(e, seen); n != "" {
+				names.add(n)
+			}
 		}
 		return strings.Join(names.sorted(), "/")
 	}
